@@ -181,7 +181,10 @@ EscId(n) == IF n = <<>> THEN <<>>
                   ELSE IF Head(n) = "%" /\ RenPct THEN <<"%", "%">> ELSE <<Head(n)>>) \o EscId(Tail(n))
 QuoteId(n) == <<IQ>> \o EscId(n) \o <<FQ>>
 Quote(n) == IF RequiresQuotes(n) THEN QuoteId(n) ELSE n
-\* what the backend needs, independent of the tables in the code
+\* what the BACKEND needs, independent of the tables in the code: a bare identifier may not start with a digit (it would be read as
+\* a number: the lexer's "num" state) nor with $ (a parameter marker); Oracle also refuses a leading underscore.  This is never
+\* taken from the tree's illegal_initial_characters (BadInit, used by Quote only); for SQLite it is calibrated by execution
+\* (lexers_common.sqlite_illegal_initial: every digit and $ are refused, _ and letters accepted).
 NumberLike(c) == c \in Digits \/ c = "$" \/ (c = "_" /\ Backend = "oracle")
 IsIdentTok(t) == \/ t.t = "qid" /\ t.v # <<>>
                  \/ t.t = "word" /\ ~NumberLike(t.v[1]) /\ LowerS(t.v) \notin KW
